@@ -500,6 +500,36 @@ pub fn run(tier: Tier) -> i32 {
             other => acc.violation(Violation { sig: "wide-builder/build".into(), what: format!("building 30 rules / functions / symbols failed: {:?}", other.map(|r| r.map(|_| ()))), case: json!({"kind": "wide"}), size: 30 }),
         }
     }
+    // moderate size: n rules (n = 1..40), then a duplicate of each position must be refused; the
+    // same for functions
+    for n in 1..=40usize {
+        for dup in 0..n {
+            acc.count("executions", 2);
+            let r = catch(|| {
+                let mut b = ruleset();
+                for i in 0..n {
+                    b = b.with_rule(rule(&format!("rule{i}"), i as i128)).map_err(|e| format!("{e:?}"))?;
+                }
+                Ok::<_, String>(b.with_rule(rule(&format!("rule{dup}"), 999)).map(|_| ()).map_err(|e| observe_refusal(&e)))
+            });
+            match r {
+                Ok(Ok(Err(Some(Refusal::DuplicateRule(name))))) if name == format!("rule{dup}") => acc.outcome("dup-rule:refused"),
+                other => acc.violation(Violation { sig: format!("duplicate-rule/{n}/{dup}"), what: format!("{n} rules, then a second rule named like rule #{dup}: {:?}", other.map(|x| x.map(|y| y.is_ok()))), case: json!({"kind": "dup", "n": n, "dup": dup}), size: n * 100 + dup }),
+            }
+            let names: Vec<&'static str> = (0..n).map(|i| &*Box::leak(format!("fun{i}").into_boxed_str())).collect();
+            let r = catch(|| {
+                let mut b = ruleset();
+                for (i, nm) in names.iter().enumerate() {
+                    b = if i % 2 == 0 { b.with_function(func(nm, i as i128)) } else { b.with_functions(vec![Box::new(func(nm, i as i128)) as Box<dyn UserFunction + Send + Sync + 'static>]) }.map_err(|e| format!("{e:?}"))?;
+                }
+                Ok::<_, String>(b.with_function(func(names[dup], 999)).map(|_| ()).map_err(|e| observe_refusal(&e)))
+            });
+            match r {
+                Ok(Ok(Err(Some(Refusal::DuplicateFunction(name))))) if name == names[dup] => acc.outcome("dup-fn:refused"),
+                other => acc.violation(Violation { sig: format!("duplicate-function/{n}/{dup}"), what: format!("{n} functions, then a second one named like #{dup}: {:?}", other.map(|x| x.map(|y| y.is_ok()))), case: json!({"kind": "dup", "n": n, "dup": dup}), size: n * 100 + dup }),
+            }
+        }
+    }
     let n_names = check_names(&mut acc, tier);
     acc.sample("history", 1, || json!({"calls": ["with_symbol(s, i11)", "with_symbols({s: i17, t: i18, u: i19})", "with_function(f)", "with_rules([C#6, C#7]) -> refused"]}));
     acc.sample("name", 1, || json!({"candidates": ["_-", "if", "date_time", "é1", "1a", ""]}));
